@@ -553,7 +553,7 @@ func TestC19(t *testing.T) {
 			}
 		}
 	}
-	kit.SetRapid(kit.N(80000, 4000000))
+	kit.SetRapid(kit.N(80000, 2000000))
 	rapid.Check(t, kit.Prop("C19", func(t *rapid.T) {
 		m := genC13Msg(t)
 		if len(m.Question) == 0 {
